@@ -448,7 +448,7 @@ EmitAll(top, pre, i, es, S) ==
 
 (* the event leaves the last operator of the pipeline at pre *)
 Leave(top, pre, e, S) ==
-    IF pre = <<>> THEN S
+    IF pre = <<>> THEN (IF S.src /\ e.t = "e" THEN Die(S, e.v) ELSE S)    \* demux_observable
     ELSE LET ppre == SubSeq(pre, 1, Len(pre) - 2)
              i == pre[Len(pre) - 1]
              b == pre[Len(pre)]
@@ -492,7 +492,8 @@ Feed(top, pre, i, e, S) ==
               IN EmitAll(top, pre, i, r[2], [S EXCEPT !.st = (path :> r[1]) @@ S.st])
 
 InitS(top) == [st |-> EmptyFn, logs |-> [p \in Paths(top, <<>>) |-> <<>>], ord |-> 0,
-               dead |-> FALSE, err |-> None, erro |-> 0, dl |-> <<>>]
+               dead |-> FALSE, err |-> None, erro |-> 0, dl |-> <<>>,
+               src |-> FALSE]     \* src: a plain source behind multiplex / with_store (root demux)
 
 (* one source event, pushed to the end of the pipeline *)
 Push(top, e, S) == Emit(top, <<>>, 0, e, S)
